@@ -29,6 +29,7 @@ ProjOf(ev) == [p \in 1..Len(ev.proj) |-> [begin |-> ev.proj[p].beginhex,
 Blocks4(ev) == [p \in 1..Len(ev.proj) |-> [beginoff |-> ev.proj[p].beginoff, n |-> Len(ev.proj[p].ins)]]
 StateOf(ev) == [live |-> TRUE, mode |-> ev.modename, depth |-> ev.depth, haslist |-> ev.haslist, stack |-> <<ev.modename>>,
                 listing |-> Unmarked(ev.listing), cursor |-> ev.cursor, marks |-> MarksOf(ev.listing),
+                emuregs |-> {<<ev.emuregs[i].key, ev.emuregs[i].val>> : i \in 1..Len(ev.emuregs)},
                 hasmem |-> ev.hasmem, memrows |-> ev.memrows, memcur |-> ev.memcur, stored |-> <<>>, memknown |-> FALSE]
 
 \* ---- C23: listing = fresh rendering = expected structure ---------------------
@@ -43,6 +44,27 @@ Cmd(ev) == IF Len(ev.toks) = 0 THEN "" ELSE ev.toks[1]
 NavDown == {"down", "d"}  NavUp == {"up", "u"}  NavGoto == {"goto", "g"}
 NavEntry == {"entrypoint", "entry"}  NavFind == {"find", "f", "/"}
 MoveCmd == {"move", "mv", "m"}
+
+\* ---- the registers of the emulator mode (beyond the listed properties) -----------------------
+\* across one input line that stays in the emulator: a step only adds knowledge (registers never disappear);
+\* "regmod k" changes exactly register k, keeps its width and stores the typed number (an unknown k is an error);
+\* no other line touches the registers
+StepCmd   == {"forward", "fwd", "f", "step", "s"}
+RegmodCmd == {"regmod", "rmod"}
+RegKeys(S) == {t[1] : t \in S}
+EmuRegsProblem(ev, old, new) ==
+    LET c == Cmd(ev) IN
+    IF c \in StepCmd THEN (IF RegKeys(old) \subseteq RegKeys(new) THEN "" ELSE "a step lost a register")
+    ELSE IF c \in RegmodCmd /\ Len(ev.toks) = 2
+      THEN LET k == ev.toks[2] IN
+           IF k \notin RegKeys(old) THEN (IF new = old /\ ev.outcome = "error" THEN "" ELSE "regmod of an unknown register")
+           ELSE IF RegKeys(new) # RegKeys(old) THEN "regmod changed the set of registers"
+           ELSE IF \E t \in old : t[1] # k /\ t \notin new THEN "regmod changed another register"
+           ELSE IF \E t \in new : \E u \in old : t[1] = k /\ u[1] = k /\ Len(t[2]) # Len(u[2]) THEN "regmod changed the width"
+           ELSE IF ev.fillv.kind = "num" /\ ev.fillv.v >= 0 /\ \E t \in new : t[1] = k /\ t[2] # FromNat(ev.fillv.v, Len(t[2]))
+             THEN "regmod stored another value"
+           ELSE ""
+    ELSE IF new # old THEN "registers changed by a line that is neither a step nor regmod" ELSE ""
 
 BoundsCmd == {"bounds", "b"}
 BoundsOf(ev) == [p \in 1..Len(ev.proj) |-> [lo |-> ev.proj[p].lo, up |-> ev.proj[p].up]]
@@ -89,6 +111,10 @@ JudgeCmd(ev, st) ==
               /\ LineOfOffset(Unmarked(ev.listing), Blocks4(ev), ev.ipoff) >= 0
               /\ ev.cursor # LineOfOffset(Unmarked(ev.listing), Blocks4(ev), ev.ipoff)
         THEN Fail("ipcursor", LineOfOffset(Unmarked(ev.listing), Blocks4(ev), ev.ipoff), ev.cursor, s2)
+      \* emulator registers
+      ELSE IF On("emuregs") /\ st.mode = "emulate" /\ ev.modename = "emulate" /\ ev.depth = st.depth
+              /\ EmuRegsProblem(ev, st.emuregs, s2.emuregs) # ""
+        THEN Fail("emuregs", EmuRegsProblem(ev, st.emuregs, s2.emuregs), [before |-> st.emuregs, after |-> s2.emuregs], s2)
       \* line marks
       ELSE IF On("marks") /\ st.mode = "app" /\ st.haslist /\ ev.modename = "app" /\ MarksOf(ev.listing) # MarksExpected(ev, st)
         THEN Fail("marks", MarksExpected(ev, st), MarksOf(ev.listing), s2)
